@@ -276,16 +276,24 @@ def run_circuit(case):
         out['imm'] = imm
         if case.get('transfer'):
             try:
-                H = c.transfer(*case['transfer'])
-                out['transfer'] = gq(H(j * w))
-                out['transfer_s'] = gq(H, sub)
-                try:
-                    # which route produced it: the ladder-network shortcut or the generic test-source analysis
+                # first the ladder-network shortcut that transfer() tries (inside a bare try/except) on its own:
+                # which route will produce the answer, and does the search terminate at all?
+                with cpu_limit(int(case.get('transfer_cpu_s', 15))):
                     out['transfer_ladder'] = c._ladder(*case['transfer']) is not None
-                except Exception:
-                    out['transfer_ladder'] = False
-            except Exception as e:
-                out['transfer'] = {'error': type(e).__name__ + ': ' + str(e)[:150]}
+            except CpuTimeout as e:
+                out['transfer'] = {'error': 'hang: the ladder search of transfer() does not terminate', 'hang': True, 'where': e.where}
+            except Exception:
+                out['transfer_ladder'] = False
+            if 'transfer' not in out:
+                try:
+                    with cpu_limit(int(case.get('transfer_cpu_s', 15)) * 4):
+                        H = c.transfer(*case['transfer'])
+                    out['transfer'] = gq(H(j * w))
+                    out['transfer_s'] = gq(H, sub)
+                except CpuTimeout as e:
+                    out['transfer'] = {'error': 'hang: transfer() used more than its CPU budget', 'hang': True, 'where': e.where}
+                except Exception as e:
+                    out['transfer'] = {'error': type(e).__name__ + ': ' + str(e)[:150]}
         res['ac'][ws] = out
     if case.get('want_time', True):
         oms = list(res['ac'].keys())
@@ -366,12 +374,50 @@ class CaseTimeout(BaseException):
     pass
 
 
+class CpuTimeout(Exception):
+    def __init__(self, where):
+        Exception.__init__(self, 'cpu budget exceeded')
+        self.where = where
+
+
+def _vtalarm(signum, frame):
+    where = []
+    f = frame
+    while f is not None and len(where) < 12:
+        where.append('%s:%s' % (f.f_code.co_filename.split('/')[-1], f.f_code.co_name))
+        f = f.f_back
+    raise CpuTimeout(where)
+
+
+class cpu_limit(object):
+    """raise CpuTimeout when the enclosed code uses more than `sec` seconds of PROCESS CPU time
+    (ITIMER_VIRTUAL: independent of the load of the machine)"""
+
+    def __init__(self, sec):
+        self.sec = sec
+
+    def __enter__(self):
+        import signal
+        signal.signal(signal.SIGVTALRM, _vtalarm)
+        signal.setitimer(signal.ITIMER_VIRTUAL, self.sec)
+
+    def __exit__(self, *a):
+        import signal
+        signal.setitimer(signal.ITIMER_VIRTUAL, 0)
+        return False
+
+
 def _alarm(signum, frame):
     raise CaseTimeout()
 
 
 def main():
     import signal
+    try:
+        import resource
+        resource.setrlimit(resource.RLIMIT_AS, (10 * 2 ** 30, 10 * 2 ** 30))
+    except Exception:
+        pass
     signal.signal(signal.SIGALRM, _alarm)
     cases = json.load(sys.stdin)
     out = []
